@@ -22,7 +22,7 @@ LEVEL = {"C09": "exploration", "C10": "exploration", "C12": "exploration", "C13"
          "C19": "exploration", "C20": "fault_enumeration"}
 
 TIERS = {
-    "quick": {"budget": 70, "selftest": 10, "max_min": 4, "wall": 60},
+    "quick": {"budget": 100, "selftest": 8, "max_min": 4, "wall": 60},
     "thorough": {"budget": 900, "selftest": 48, "max_min": 12, "wall": 90},
 }
 
